@@ -247,6 +247,7 @@ theorem step_life {s : Server} (op : SOp) (h : Life s) : Life (s.step op).1 := b
   cases op with
   | conn p => simp only [Server.step]; split <;> exact ⟨h.gone, h.cx⟩
   | svc => exact service_life h
+  | nop => exact h
   | svce =>
     have hs := service_life h
     simp only [Server.step]
